@@ -242,6 +242,9 @@ def gen_accept(r):
     for t in pool:
         if r.chance(1, 3 if k >= 4 else 6):
             acc.append(t)
+    if r.chance(1, 3):
+        # no native range rows (linear and quadratic): proper ranges lb < ub go through Range2Slk (range -> equality + slack)
+        acc = [t for t in acc if t not in ('LinConRange', 'QuadConRange')]
     return acc
 
 
